@@ -44,6 +44,13 @@ claim("C12", "DESIGN.md 5 C12",
       "all of packetmap and packetcache under their representation invariants; rtpconn Write/write, layer functions, adjustLayer, updateRate, bitrate, sadd. RewritePacket cannot change the packet length (it receives the slice by value and writes only data[*]).",
       "Assumed: pion Unmarshal contracts (write only their receiver; VP9 success implies non-empty input). Not decided / not yet under contract: the websocket message handlers, HTTP handlers, sdpfrag; panics inside dependencies; resource exhaustion.")
 
+claim("C03", "DESIGN.md 5 C03",
+      "packetmap.Reverse is proved to invert the table: a hit names a source packet that some interval maps to exactly the requested number with that interval's picture-id shift; numbers outside every interval's image get nothing. "
+      "The closure of rtpconn.gotNACK serving one NACKed number is verified against: nothing is emitted unless the number lies in the image of an interval; at most one packet is emitted; "
+      "a number of the newest interval is answered with a packet emitted under exactly that number (Reverse newest + cache lookup + Write's late-copy clause, which re-derives the number through Map/direct).",
+      "Assumed: conn.UpTrack.GetPacket returns a cached packet whose header seqno is the requested one (justified by C05 Get and readLoop's Store call; not yet under contract), rtcp.NackPair.Range only calls the closure. "
+      "Not decided: older intervals of the ring (first-hit consistency between Reverse and direct is the ring-order invariant, see C01); equality of the marker bit when the selected layer changed since the original transmission (recomputed from the current layer).")
+
 PENDING = "not yet carried by the engine in this build (work in progress; see DESIGN.md section 9 for the order of work)"
-for pid in ["C03", "C07", "C08", "C09", "C10", "C11", "C13", "C14", "C15", "C16", "C17", "C18", "C19", "C20"]:
+for pid in ["C07", "C08", "C09", "C10", "C11", "C13", "C14", "C15", "C16", "C17", "C18", "C19", "C20"]:
     na(pid, PENDING)
